@@ -42,6 +42,7 @@ pub struct Pb {
     step: usize,
     sh: Arc<Mutex<Shared>>,
     fair: Fair,
+    one_shot: bool,
 }
 
 /// Fair scheduling (Musuvathi & Qadeer, "Fair stateless model checking"): when task t yields (a
@@ -130,6 +131,12 @@ impl Scheduler for Pb {
             sh.stack.truncate(step);
             if !advance(&mut sh.stack, self.bound) {
                 sh.done = true;
+                return None;
+            }
+            if self.one_shot {
+                // one execution per Runner (and per OS thread, see `explore_scenario`): the next
+                // Runner starts directly with the vector just computed
+                sh.started = false;
                 return None;
             }
         }
@@ -264,6 +271,8 @@ pub fn classify(msg: &str) -> String {
 }
 
 pub type Body = Arc<dyn Fn() + Send + Sync + 'static>;
+/// name prefix of scenarios whose executions each get a fresh OS thread
+pub const OWN_THREAD: &str = "own-thread:";
 
 /// Explore one scenario exhaustively up to `bound` preemptions. Up to `max_fail` failing
 /// schedules are collected (the DFS resumes after each failing vector).
@@ -272,12 +281,25 @@ pub fn explore_scenario(idx: usize, name: &str, bound: u8, cap: u64, body: Body,
     *CURRENT.lock().unwrap() = Some((idx, name.to_string(), bound, sh.clone()));
     let mut fails = vec![];
     loop {
-        let pb = Pb { bound, step: 0, sh: sh.clone(), fair: Fair::default() };
-        let runner = shuttle::Runner::new(pb, config());
+        let one_shot = name.starts_with(OWN_THREAD);
+        let pb = Pb { bound, step: 0, sh: sh.clone(), fair: Fair::default(), one_shot };
         let b = body.clone();
-        let r = std::panic::catch_unwind(std::panic::AssertUnwindSafe(move || runner.run(move || b())));
+        // scenarios named "own-thread:..." run every execution on a fresh OS thread: std
+        // `thread_local!` state of the code under test (shuttle tasks share their OS thread) then
+        // cannot leak from one execution into the next. It costs a thread and a set of coroutine
+        // stacks per execution, so only scenarios that exercise such state ask for it; elsewhere
+        // a leak shows as a divergence while replaying a schedule prefix (machinery exit).
+        let r = if one_shot {
+            std::thread::spawn(move || shuttle::Runner::new(pb, config()).run(move || b())).join()
+        } else {
+            std::panic::catch_unwind(std::panic::AssertUnwindSafe(move || shuttle::Runner::new(pb, config()).run(move || b())))
+        };
         match r {
-            Ok(_) => break,
+            Ok(_) => {
+                if sh.lock().unwrap().done {
+                    break;
+                }
+            }
             Err(e) => {
                 let cap = CAPTURED.lock().unwrap().clone();
                 let (msg, loc) = match cap {
@@ -321,8 +343,7 @@ pub fn replay_schedule(schedule: &[u8], body: Body) -> Option<String> {
     let stack: Vec<Dec> = schedule.iter().map(|c| Dec { choice: *c, n: 0, cost_before: 0, cur_enabled: false }).collect();
     let sh = Arc::new(Mutex::new(Shared { stack, fixed: true, ..Default::default() }));
     let pb = PbReplay { step: 0, sh: sh.clone(), trace: std::env::var("MC_TRACE").is_ok(), fair: Fair::default() };
-    let runner = shuttle::Runner::new(pb, config());
-    let r = std::panic::catch_unwind(std::panic::AssertUnwindSafe(move || runner.run(move || body())));
+    let r = std::thread::spawn(move || shuttle::Runner::new(pb, config()).run(move || body())).join();
     match r {
         Ok(_) => None,
         Err(e) => Some(panic_msg(e)),
